@@ -13,7 +13,7 @@ func Ops() []*core.Op {
 	return []*core.Op{
 		{
 			Name: "c09.node",
-			Doc:  "one Reconcile of the REAL node termination controller (finalize: claim delete, instance-gone shortcut, taint, awaitDrain, awaitVolumeDetachment, awaitInstanceTermination, status patch, finalizer removal) on the fake client + wrapped fake provider with per-call fault injection; action log, result, end state and the ground-truth snapshot at every finalizer removal",
+			Doc:  "one Reconcile of the REAL node termination controller (finalize: claim delete, instance-gone shortcut, taint, awaitDrain, awaitVolumeDetachment, awaitInstanceTermination, status patch, finalizer removal) on the fake client + wrapped fake provider with per-call fault injection (provider Get / Delete fail as a plain error, a crash, or a near miss of 'instance not found': wrapped or bare API NotFound / Conflict / Gone for another object, NodeClassNotReady, InsufficientCapacity, context deadline, a 'not found' message; or answer honestly inside a wrapping error); action log, result, end state and the ground-truth snapshot at every finalizer removal",
 			N: func(t core.Tier) int {
 				if t == core.Thorough {
 					return 30000
@@ -53,7 +53,7 @@ func Ops() []*core.Op {
 			Labels:         claimLabels,
 			Signature:      func(json.RawMessage, any) string { return "claim" },
 			Shrink:         shrinkClaim,
-			ExhaustiveNote: "registered x instance x node case x InstanceTerminating x annotation (324 states) + every single fault position x class on 6 base states + launch path x every fault",
+			ExhaustiveNote: "registered x instance x node case (incl. the claim's Nodes existing only under a name other than status.nodeName) x InstanceTerminating x annotation (486 states) + every single fault position x class on 6 base states + launch path x every fault",
 		},
 		{
 			Name: "c09.protocol",
